@@ -16,8 +16,10 @@ from . import env
 
 VERIF = env.VERIF
 LEAN_DIR = os.path.join(VERIF, 'lean')
-EVIDENCE_DIR = os.path.join(VERIF, 'evidence')
-REPLAY_DIR = os.path.join(VERIF, 'replays')
+# (SGZV_OUT: scratch runs against a patched copy of the repository keep their evidence and replays out of /verif)
+_OUT = os.environ.get('SGZV_OUT') or VERIF
+EVIDENCE_DIR = os.path.join(_OUT, 'evidence')
+REPLAY_DIR = os.path.join(_OUT, 'replays')
 ALLOWED_AXIOMS = {'propext', 'Classical.choice', 'Quot.sound'}
 FORBIDDEN = re.compile(r'\b(sorry|admit|native_decide|bv_decide|implemented_by|unsafe)\b|^\s*axiom\s|maxHeartbeats\s+0\b',
                        re.M)
